@@ -16,16 +16,17 @@ open Rustemo
     from the start symbol and its leaves are, in order, exactly the tokens that were shifted. -/
 theorem C02_tree_is_derivation_any_lexer (env : Env) (nt : Ctx → Ctx × Outcome Tok)
     (ctx0 : Ctx) (fuel : Nat) (ctx : Ctx) (r : ParseResult)
-    (hcert : Cert.structural env.g env.t 0 0 env.g.startIdx = true)
+    (hcert : Cert.structural env.g env.t (autosOf env.g env.t) = true)
     (hrun : parseWith env nt 0 ctx0 fuel = (ctx, .ok r)) :
     r.tree.Valid env.g env.g.startIdx ∧ r.tree.yield = (r.hist.map (·.kind)).reverse :=
-  parseWith_sound env nt 0 0 env.g.startIdx (Cert.structural_sound _ _ _ _ _ hcert) ctx0 fuel ctx r hrun
+  parseWith_sound env nt (autosOf env.g env.t) (Cert.structural_sound _ _ _ hcert)
+    ⟨0, 0, env.g.startIdx⟩ (by unfold autosOf; exact List.mem_cons_self) 0 rfl ctx0 fuel ctx r hrun
 
 /-- **`LRParser::parse` with the default string lexer**, whitespace skipping or Layout rule,
     partial parsing on or off, any recognizers (`env.recog`), any input. -/
 theorem C02_tree_is_derivation (env : Env) (partialParse : Bool) (fuel : Nat) (ctx : Ctx)
     (r : ParseResult)
-    (hcert : Cert.structural env.g env.t 0 0 env.g.startIdx = true)
+    (hcert : Cert.structural env.g env.t (autosOf env.g env.t) = true)
     (hrun : parse env partialParse fuel = (ctx, .ok r)) :
     r.tree.Valid env.g env.g.startIdx ∧ r.tree.yield = (r.hist.map (·.kind)).reverse :=
   C02_tree_is_derivation_any_lexer env _ {} fuel ctx r hcert hrun
@@ -36,7 +37,7 @@ namespace Rustemo.Props.C02
 open Rustemo
 
 /-- non-vacuity: the hypotheses of `C02_tree_is_derivation` are met by a concrete run -/
-example : Cert.structural Example.env.g Example.env.t 0 0 Example.env.g.startIdx = true ∧
+example : Cert.structural Example.env.g Example.env.t (autosOf Example.env.g Example.env.t) = true ∧
     Example.isOk (parse Example.env false 100).2 = true := by decide
 
 end Rustemo.Props.C02
